@@ -4,7 +4,7 @@ from mc.props import rcommon
 ID = "C06"
 TITLE = "Resolution output is a faithful, ordered partition of the resolved citations"
 TECHNIQUE = (
-    "explicit-state model checking of the real resolve_citations: all event sequences <= L over a 47-symbol citation-kind "
+    "explicit-state model checking of the real resolve_citations: all event sequences <= L over a 53-symbol citation-kind "
     "alphabet + BFS over canonical resolver states to fix-point (canon soundness checked) + extracted lists; oracle: structural partition laws (disjoint, input objects only, input order, lists start with a full citation, full citations share a resource iff same document, no unknown citations)"
 )
 RULE = rcommon.rule(ID)
